@@ -2,10 +2,13 @@ package main
 
 import (
 	"bufio"
+	"bytes"
 	"encoding/json"
 	"fmt"
 	"io"
 	"os"
+	"os/exec"
+	"strings"
 	"sync"
 )
 
@@ -78,5 +81,93 @@ func parallel(n, workers int, f func(i int)) {
 		ch <- i
 	}
 	close(ch)
+	wg.Wait()
+}
+
+// runInChildren executes items [0,n) in child processes (sub-command `child` of this binary), `chunk` items per child. Every item
+// must produce lines {"t":<index>,"e":"reset"} ... {"t":<index>,"e":"end"}. If a child dies, the item that was running gets a
+// synthetic {"e":"crash"} line followed by {"e":"end"}, and the remaining items of the chunk are run in a new child.
+func runInChildren(child string, n, workers, chunk int, mkJob func(lo, hi int) interface{}, em *emitter) {
+	type span struct{ lo, hi int }
+	var mu sync.Mutex
+	queue := []span{}
+	for lo := 0; lo < n; lo += chunk {
+		hi := lo + chunk
+		if hi > n {
+			hi = n
+		}
+		queue = append(queue, span{lo, hi})
+	}
+	next := func() (span, bool) {
+		mu.Lock()
+		defer mu.Unlock()
+		if len(queue) == 0 {
+			return span{}, false
+		}
+		s := queue[0]
+		queue = queue[1:]
+		return s, true
+	}
+	var wg sync.WaitGroup
+	for w := 0; w < workers; w++ {
+		wg.Add(1)
+		go func() {
+			defer wg.Done()
+			for {
+				sp, ok := next()
+				if !ok {
+					return
+				}
+				for sp.lo < sp.hi {
+					in, _ := json.Marshal(mkJob(sp.lo, sp.hi))
+					cmd := exec.Command(os.Args[0], child)
+					cmd.Stdin = bytes.NewReader(in)
+					var out, errb bytes.Buffer
+					cmd.Stdout = &out
+					cmd.Stderr = &errb
+					runErr := cmd.Run()
+					// split the output into items
+					done := sp.lo
+					var cur []obj
+					curT := -1
+					for _, line := range strings.Split(out.String(), "\n") {
+						if line == "" {
+							continue
+						}
+						var o obj
+						if json.Unmarshal([]byte(line), &o) != nil {
+							continue
+						}
+						if o["e"] == "reset" {
+							cur = nil
+							curT = int(o["t"].(float64))
+						}
+						cur = append(cur, o)
+						if o["e"] == "end" {
+							em.lines(cur)
+							cur = nil
+							done = curT + 1
+							curT = -1
+						}
+					}
+					if runErr == nil && done >= sp.hi {
+						break
+					}
+					// the child died while item `done` was running (or before it started it)
+					t := done
+					if cur == nil {
+						cur = []obj{{"t": t, "e": "reset"}}
+					}
+					tail := errb.String()
+					if len(tail) > 1500 {
+						tail = tail[:1500]
+					}
+					cur = append(cur, obj{"t": t, "e": "crash", "detail": tail}, obj{"t": t, "e": "end"})
+					em.lines(cur)
+					sp.lo = t + 1
+				}
+			}
+		}()
+	}
 	wg.Wait()
 }
